@@ -28,7 +28,16 @@ func c19Run(in c19Input) []c19Obs {
 	cam := testCam{4, 4, 9}
 	fl := motion.NewFrameLoop(in.Size, cam)
 	var obs []c19Obs
-	for _, op := range in.Ops {
+	// a panic of the ring (e.g. a slice bound) is an observation like any other: the step that
+	// panicked and every later one report the marker -999, which no model history contains
+	panicked := false
+	step := func(op c19Op) (o c19Obs) {
+		defer func() {
+			if r := recover(); r != nil {
+				panicked = true
+				o = c19Obs{Hist: []int{-999}, Oldest: -999, Recent: -999, Cur: -999}
+			}
+		}()
 		switch op.K {
 		case 0:
 			setID(fl.Current(), op.V)
@@ -39,14 +48,20 @@ func c19Run(in c19Input) []c19Obs {
 		case 3:
 			fl.Reset()
 		}
-		var o c19Obs
 		for _, f := range fl.GetHistory() {
 			o.Hist = append(o.Hist, getID(f))
 		}
 		o.Oldest = getID(fl.Oldest())
 		o.Recent = getID(fl.CopyRecent())
 		o.Cur = getID(fl.Current())
-		obs = append(obs, o)
+		return o
+	}
+	for _, op := range in.Ops {
+		if panicked {
+			obs = append(obs, c19Obs{Hist: []int{-999}, Oldest: -999, Recent: -999, Cur: -999})
+			continue
+		}
+		obs = append(obs, step(op))
 	}
 	return obs
 }
